@@ -439,6 +439,10 @@ func (s *Server) verifyVotes(cd *commonData, votes []SingleVote, asig []byte, st
 		if staData[addr] == true {
 			continue
 		}
+		// only online validators of the voting kind are entitled to vote
+		if validator == nil || validator.Kind() != kind || !validator.IsOnline() {
+			continue
+		}
 
 		//verify sortition
 		vrfpk, err := secp256k1VRF.NewVRFVerifier(pubKey)
